@@ -312,5 +312,5 @@ Proof.
       replace (snd y <? now s) with true by (symmetry; apply Z.ltb_lt; apply Hall; left; reflexivity).
       f_equal. apply IHt. intros x Hx. apply Hall. right. exact Hx. }
     rewrite Hf in M1. rewrite firstn_length in M1. rewrite (Permutation_length (sort_by_perm _ snd (dnlq s))) in M1.
-    unfold dnl_batch in *. lia.
+    pose proof (proj2 (proj2 consts_wf)) as Bp. nia.
 Qed.
